@@ -5,8 +5,8 @@ from k1 import Unit
 class EventLoop(Unit):
     """real manual_event_loop / single_thread_context vs coq/Proto/EventLoopDefs.v"""
     name = "event_loop/EventLoop"; driver = "k1_event_loop"; cfg = "shim17"; handler = "eventloop"
-    maxruns = {"quick": 1200, "thorough": 40000}
-    nrandom = {"quick": 120, "thorough": 2000}
+    maxruns = {"quick": 800, "thorough": 40000}
+    nrandom = {"quick": 80, "thorough": 2000}
     def programs(self, tier):
         if tier == "quick":
             return [("ctx", "1", "-"), ("ctx", "2", "1.0"), ("ctx", "1,1", "-"), ("ctx", "1,1", "2.0"),
@@ -66,8 +66,8 @@ class EventLoop(Unit):
 class AtomicQueue(Unit):
     """real atomic_intrusive_queue<Item,&Item::next> vs coq/Proto/AtomicQueueDefs.v"""
     name = "atomic_queue/AtomicQueue"; driver = "k1_atomic_queue"; cfg = "shim17"; handler = "atomicqueue"
-    maxruns = {"quick": 1500, "thorough": 40000}
-    nrandom = {"quick": 150, "thorough": 2000}
+    maxruns = {"quick": 800, "thorough": 40000}
+    nrandom = {"quick": 100, "thorough": 2000}
     def programs(self, tier):
         if tier == "quick":
             return [("active", "1", "MF"), ("active", "2", "MMF"), ("active", "1,1", "MF"), ("active", "1,1", "MMF"),
@@ -103,4 +103,54 @@ class AtomicQueue(Unit):
         total = sum(int(x) for x in prog[1].split(","))
         if len([x for x in m.group(2).split(",") if x]) != total:
             return "not every enqueue took effect: " + summary
+        return None
+
+class ThreadPool(Unit):
+    """real static_thread_pool vs coq/Proto/ThreadPoolDefs.v"""
+    name = "thread_pool/ThreadPool"; driver = "k1_thread_pool"; cfg = "shim17"; handler = "threadpool"
+    maxruns = {"quick": 700, "thorough": 40000}
+    nrandom = {"quick": 100, "thorough": 3000}
+    def programs(self, tier):
+        if tier == "quick":
+            return [("dtor", "1", "1"), ("dtor", "1", "1,1"), ("dtor", "2", "1"), ("dtor", "2", "1,1"), ("dtor", "2", "2,1"),
+                    ("dtor", "2", "1,1,1"), ("dtor", "3", "1,1"), ("race", "1", "1"), ("race", "2", "1,1"), ("race", "2", "2")]
+        progs = []
+        for mode in ("dtor", "race"):
+            for k in ("1", "2", "3"):
+                for counts in ("1", "2", "1,1", "2,1", "2,2", "1,1,1", "2,1,1", "3", "1,1,1,1"):
+                    progs.append((mode, k, counts))
+        return progs
+    def model_args(self, prog):
+        return "%d %s %s" % (1 if prog[0] == "race" else 0, prog[1], prog[2])
+    def project(self, prog, events):
+        out = []
+        for e in events:
+            m = re.match(r"t(\d+) (\S+) ?(.*)$", e)
+            t, name, rest = int(m.group(1)), m.group(2), m.group(3)
+            if name == "pool.next":
+                out.append((t, "next " + rest))
+            elif re.match(r"q\d+\.mutex$", name):
+                q = name.split(".")[0]
+                if rest.startswith("ML"):
+                    out.append((t, "%s ML %s" % (q, rest.split(" ")[1].split("->")[0])))
+                else:
+                    out.append((t, "%s MU" % q))
+            elif re.match(r"q\d+\.cv$", name):
+                out.append((t, "%s %s" % (name.split(".")[0], rest.split(".")[0])))
+            elif re.match(r"thr\d+$", name):
+                out.append((t, "%s %s" % (name, rest.split(".")[0])))
+            elif name == "!run":
+                out.append((t, "run " + rest))
+        return out
+    def post_check(self, prog, summary, proj):
+        if "final=1" not in summary:
+            return "model not final at the end of a complete implementation run: " + summary
+        total = sum(int(x) for x in prog[2].split(","))
+        m = re.search(r"executed=(\S*) queued=(\S*) late=(\S*)", summary)
+        ex = [x for x in m.group(1).split(",") if x]
+        qu = [x for x in m.group(2).split(",") if x]
+        if len(ex) + len(qu) != total:
+            return "model executed+queued != items: " + summary
+        if prog[0] == "dtor" and qu:
+            return "items left in a queue: " + summary
         return None
